@@ -3,7 +3,8 @@ from props import extlib
 
 ID = 'C04'
 COQ_PROPS = 'Props/C04.v'
-THEOREMS = ['C04_subset_shape']
+THEOREMS = ['C04_subset_shape', 'C04_subset_den', 'C04_subset_trailing1_refuted', 'C04_split_pieces', 'C04_split_piece',
+            'C04_split_data', 'C04_split_affine']
 ALLOWED_AXIOMS = []
 TRUSTED_BASE = ['hand-written Gallina model coq/Ext/Model.v of get_subset/_copy_slice/_copy_sample/_global_slice_subset/_simplify, '
                 'tied to the code by the correspondence run (Ext/Corr.v check_subset) and by the generated class tables']
